@@ -276,6 +276,49 @@ fn public_sign(family: u8, sfx: &str, secret_raw: &[u8], m: &[u8], f: &[u8], i: 
     }
 }
 
+fn left_pad(x: &[u8], len: usize) -> Vec<u8> {
+    let mut v = vec![0u8; len.saturating_sub(x.len())];
+    v.extend_from_slice(x);
+    v
+}
+
+/// The INTEGER members of a DER SEQUENCE (magnitudes, sign octet removed), e.g. of an RSAPublicKey or
+/// RSAPrivateKey. None if the input is not such a sequence.
+pub fn der_integers(der: &[u8]) -> Option<Vec<Vec<u8>>> {
+    fn tlv(b: &[u8]) -> Option<(u8, &[u8], &[u8])> {
+        let (&tag, rest) = b.split_first()?;
+        let (&l0, rest) = rest.split_first()?;
+        let (len, rest) = if l0 < 0x80 {
+            (l0 as usize, rest)
+        } else {
+            let nb = (l0 & 0x7f) as usize;
+            if nb == 0 || nb > 4 || rest.len() < nb {
+                return None;
+            }
+            (rest[..nb].iter().fold(0usize, |a, x| (a << 8) | *x as usize), &rest[nb..])
+        };
+        if rest.len() < len {
+            return None;
+        }
+        Some((tag, &rest[..len], &rest[len..]))
+    }
+    let (tag, mut body, _) = tlv(der)?;
+    if tag != 0x30 {
+        return None;
+    }
+    let mut out = Vec::new();
+    while !body.is_empty() {
+        let (tag, v, rest) = tlv(body)?;
+        if tag != 0x02 {
+            return None;
+        }
+        let v = if v.len() > 1 && v[0] == 0 { &v[1..] } else { v };
+        out.push(v.to_vec());
+        body = rest;
+    }
+    Some(out)
+}
+
 pub fn rsa_pkcs1_to_spki(pkcs1: &[u8]) -> Vec<u8> {
     // SEQUENCE { SEQUENCE { OID rsaEncryption, NULL }, BIT STRING { 00 || pkcs1 } }
     fn len_bytes(n: usize) -> Vec<u8> {
@@ -525,7 +568,25 @@ pub fn wrap(family: u8, wk: WrapKind, kind: Kind, key_raw: &[u8], secret: &[u8],
                     let t = hmac384(&ak, &[hdr.as_bytes(), &epk, &edk]);
                     Some(format!("{hdr}{}", b64(&[&t[..], &epk, &edk].concat())))
                 }
-                _ => None, // k1.seal: raw RSA is not available from a second provider
+                1 => {
+                    // k1.seal: RSA-KEM. Raw RSA is a modular exponentiation done here on plain big
+                    // integers, with n and e read from the recipient's DER by a parser of our own.
+                    use num_bigint_dig::BigUint;
+                    let ints = der_integers(rsa_spki_to_pkcs1(secret)?)?;
+                    let (n, e) = (BigUint::from_bytes_be(ints.first()?), BigUint::from_bytes_be(ints.get(1)?));
+                    let mut r = entropy.get(..512)?.to_vec();
+                    r[0] = (r[0] & 0x7f) | 0x40;
+                    let c = left_pad(&BigUint::from_bytes_be(&r).modpow(&e, &n).to_bytes_be(), 512);
+                    let k = sha384(&[&c]);
+                    let x = hmac384(&k, &[&[0x01], hdr.as_bytes(), &r]);
+                    let ak = hmac384(&k, &[&[0x02], hdr.as_bytes(), &r]);
+                    let nn = iv_override(iv, "k1.seal", &x[32..48]);
+                    let mut edk = key_raw.to_vec();
+                    aes256ctr(&x[..32], &nn, &mut edk);
+                    let t = hmac384(&ak, &[hdr.as_bytes(), &c, &edk]);
+                    Some(format!("{hdr}{}", b64(&[&t[..], &edk, &c].concat())))
+                }
+                _ => None,
             }
         }
     }
@@ -629,6 +690,33 @@ pub fn unwrap(family: u8, wk: WrapKind, kind: Kind, text: &str, secret: &[u8], i
                     let n = iv_override(iv, "k3.seal", &x[32..48]);
                     let mut out = edk.to_vec();
                     aes256ctr(&x[..32], &n, &mut out);
+                    Some(out)
+                }
+                1 => {
+                    use num_bigint_dig::BigUint;
+                    if d.len() != 48 + 32 + 512 {
+                        return None;
+                    }
+                    let (t, rest) = d.split_at(48);
+                    let (edk, c) = rest.split_at(32);
+                    // RSAPrivateKey ::= SEQUENCE { version, n, e, d, ... }
+                    let ints = der_integers(secret)?;
+                    let (n, dd) = (BigUint::from_bytes_be(ints.get(1)?), BigUint::from_bytes_be(ints.get(3)?));
+                    let cv = BigUint::from_bytes_be(c);
+                    if cv >= n {
+                        return None;
+                    }
+                    let r = cv.modpow(&dd, &n).to_bytes_be();
+                    let k = sha384(&[c]);
+                    let ak = hmac384(&k, &[&[0x02], hdr.as_bytes(), &r]);
+                    let t2 = hmac384(&ak, &[hdr.as_bytes(), c, edk]);
+                    if t2 != t {
+                        return None;
+                    }
+                    let x = hmac384(&k, &[&[0x01], hdr.as_bytes(), &r]);
+                    let nn = iv_override(iv, "k1.seal", &x[32..48]);
+                    let mut out = edk.to_vec();
+                    aes256ctr(&x[..32], &nn, &mut out);
                     Some(out)
                 }
                 _ => None,
